@@ -31,7 +31,7 @@ type c16Case struct {
 	ForeignFin bool
 	RL, RA     [3]int // response labels/annotations for k1,k3,k2: 0 unnamed, 1 "v", 2 null
 	RStatus    int    // 0 null, 1 equal to the observed one, 2 different
-	Mode       int    // 0 no finalize hook; 1 finalize hook, live target; 2 finalizing, finalized=false; 3 finalizing, finalized=true
+	Mode       int    // 0 no finalize hook; 1 finalize hook, live target; 2 finalizing, finalized=false; 3 finalizing, finalized=true; 4 no finalize hook, the sync answer carries a stray finalized=true; 5 finalize hook, target pending deletion held only by a foreign finalizer (ours already gone), finalized=true
 	Stale      bool   // the target's spec is edited after the cache was filled
 }
 
@@ -63,13 +63,13 @@ func c16Target(c c16Case) kit.M {
 	if c.ForeignFin {
 		fins = append(fins, "ex.io/foreign")
 	}
-	if c.Mode >= 2 {
+	if c.Mode == 2 || c.Mode == 3 {
 		fins = append(fins, c16Fin)
 	}
 	if len(fins) > 0 {
 		kit.Finalizers(t, fins...)
 	}
-	if c.Mode >= 2 {
+	if c.Mode == 2 || c.Mode == 3 || c.Mode == 5 {
 		kit.Deleting(t)
 	}
 	return t
@@ -168,7 +168,7 @@ func c16Run(c c16Case) []mc.Finding {
 	if c.Sub {
 		pk = kit.Thing
 	}
-	w := newDWorld(dcOpt{parents: []*sim.Kind{pk}, attachments: []*sim.Kind{kit.Leaf}, finalize: c.Mode > 0}, false)
+	w := newDWorld(dcOpt{parents: []*sim.Kind{pk}, attachments: []*sim.Kind{kit.Leaf}, finalize: c.Mode > 0 && c.Mode != 4}, false)
 	target := c16Target(c)
 	w.Sim.Seed(target)
 	// bystanders: attachments of other decorators / controllers for the same target
@@ -190,7 +190,7 @@ func c16Run(c c16Case) []mc.Finding {
 		case 2:
 			out["status"] = kit.M{"s": int64(2)}
 		}
-		if c.Mode == 3 {
+		if c.Mode >= 3 {
 			out["finalized"] = true
 		}
 		return out
@@ -216,10 +216,11 @@ func c16Run(c c16Case) []mc.Finding {
 	}
 	call := w.Hooks.Calls[0]
 	wantPath := "/dc/sync"
-	if c.Mode >= 2 {
+	finalizing := c.Mode == 2 || c.Mode == 3 || c.Mode == 5
+	if finalizing {
 		wantPath = "/dc/finalize"
 	}
-	if call.Path != wantPath || (kit.Get(call.Parsed, "finalizing") == true) != (c.Mode >= 2) {
+	if call.Path != wantPath || (kit.Get(call.Parsed, "finalizing") == true) != finalizing {
 		bad("hook-kind", "hook %s finalizing=%v, want %s", call.Path, kit.Get(call.Parsed, "finalizing"), wantPath)
 	}
 	if att := kit.Map(call.Parsed, "attachments", "Leaf.v1"); len(att) != 0 {
@@ -353,10 +354,13 @@ func TestVerifC16(t *testing.T) {
 	if thorough {
 		rk2 = 3
 	}
-	dims := []int{2, 3, 2, 3, 2, 2, 2, 3, 3, rk2, 3, 3, rk2, 3, 4, 2}
+	dims := []int{2, 3, 2, 3, 2, 2, 2, 3, 3, rk2, 3, 3, rk2, 3, 6, 2}
 	mc.Product(r, dims, func(idx int, d []int) {
 		c := c16Case{Sub: d[0] == 0, TL: [2]int{d[1], d[2]}, TA: [2]int{d[3], d[4]}, TStatus: d[5], ForeignFin: d[6] == 1,
 			RL: [3]int{d[7], d[8], d[9]}, RA: [3]int{d[10], d[11], d[12]}, RStatus: d[13], Mode: d[14], Stale: d[15] == 1}
+		if c.Mode == 5 && !c.ForeignFin {
+			return // nothing would hold the object
+		}
 		if !thorough && (c.Stale || c.Mode > 0) && (c.TL[1] == 1 || c.TA[1] == 1 || c.ForeignFin && c.Mode == 0) {
 			// quick tier: the stale / finalizer modes run on the reduced target alphabet
 			return
